@@ -584,6 +584,11 @@ check_garbage(const unsigned char *g, size_t gn, int sof, int srcchunk, int sink
             return;
         }
     }
+    /* the source's error came back to the caller, unchanged, whatever the decoder was doing at that moment (also
+     * while it was skipping the rest of a damaged frame) */
+    if (variant && ts.fail_at == SIZE_MAX && nerr == 0)
+        vh_fail("source-error-not-returned", key, "garbage=%s stream=%s: the source reported %d once before octet %zu, no decode call returned it",
+                vh_hex(g, gn), vh_hex(stream, sn), ERR_SRC, failpos[variant]);
     int synced = (gn == 0) || (!sof && g[gn - 1] == END);
     int need = synced ? 3 : 2;
     int ok = nf >= (size_t)need;
